@@ -330,6 +330,18 @@ func (b *BMC) open(ev *Event, p []byte) []byte {
 		// status 0x11: no cipher suite match
 		return RMCP(SessHdr(0x11, 0, 0, append([]byte{tag, 0x11, 0, 0}, LE32(csid)...)))
 	}
+	errRsp := func(status byte) []byte {
+		return RMCP(SessHdr(0x11, 0, 0, append([]byte{tag, status, 0, 0}, LE32(csid)...)))
+	}
+	if su.Auth != 0 && HashFor(su.Auth) == nil {
+		return errRsp(0x04) // invalid authentication algorithm
+	}
+	if _, n := IntegFor(su.Integ); su.Integ != 0 && n == 0 {
+		return errRsp(0x05) // invalid integrity algorithm
+	}
+	if su.Conf > 1 {
+		return errRsp(0x10) // invalid confidentiality algorithm
+	}
 	if priv == 0 {
 		priv = b.Cfg.MaxPriv
 		if priv == 0 {
